@@ -12,7 +12,8 @@ CHUNK = {'quick': 2, 'thorough': 4}
 TIMEOUT = 600
 RULE = ('case = one batch of PhaseShift objects (centres drawn at random or computed by the real '
         'PhaseShift.compute from generated clouds: uniform, straddling the 0/1 boundary, single '
-        'point, tied gaps, duplicates, points at 0.0 and nextafter(1,0)); inputs per centre are the '
+        'point, tied gaps, duplicates, points at 0.0 and nextafter(1,0); periodic index sets in any order, not only '
+        'ascending); inputs per centre are the '
         'wrap position of the forward and of the inverse map with their +-1..4 floating-point '
         'neighbours, 0, nextafter(0,1), nextafter(1,0), denormals and random interior points. '
         'Non-trivial = a batch in which inputs on BOTH sides of a wrap position were mapped (the '
@@ -95,7 +96,7 @@ def run_case(spec):
     from nautilus.bounds.periodic import PhaseShift
     rng = np.random.default_rng(np.random.SeedSequence([spec['seed'], 16, spec['i']]))
     obs = dict(centres=0, points=0, wrap_neighbour_points=0, outputs_equal_one=0,
-               clouds=0, wraps_seen_both_sides=0, inverse_points=0)
+               clouds=0, wraps_seen_both_sides=0, inverse_points=0, unsorted_index_sets=0)
     viol = []
 
     def bad(key, what, **kw):
@@ -106,7 +107,10 @@ def run_case(spec):
     for j in range(spec['n']):
         n_dim = int(rng.integers(2, 7))
         n_per = int(rng.integers(1, n_dim + 1))
-        periodic = np.sort(rng.choice(n_dim, n_per, replace=False))
+        periodic = rng.choice(n_dim, n_per, replace=False)      # any order: [2, 0] is as valid as [0, 2]
+        if j % 3 == 0:
+            periodic = np.sort(periodic)
+        obs['unsorted_index_sets'] += int(np.any(np.diff(periodic) < 0))
         if spec['kind'] == 'centres':
             ps = PhaseShift()
             ps.periodic = periodic
